@@ -9,7 +9,8 @@ use crate::program::*;
 #[derive(Debug, Clone, Serialize, Deserialize)]
 pub struct Job {
     pub id: usize,
-    pub program: Program,
+    /// the programs of this job (one for a split schedule tree, a batch for generated programs)
+    pub programs: Vec<Program>,
     pub cancelable: bool,
     /// preemption bound; None = all interleavings
     pub bound: Option<u32>,
